@@ -125,7 +125,8 @@ def gen_scenario(rng: random.Random, feat: dict | None = None) -> dict:
                     a["off"] = rng.choice([1, 1, 2, 3])
                 elif same_cycle_ok and r < 0.6:
                     a["off"] = 0
-                elif feat.get("abs") and r > (0.9 - 0.4 * (feat.get("abs") == "many")) and home[up] == si and rec.startswith("P"):
+                elif feat.get("abs") and r > (0.9 - 0.4 * (feat.get("abs") == "many")) and home[up] == si and rec.startswith("P") \
+                        and up != rhs:        # (t[^] => t would make the first instance depend on itself)
                     a["abs"] = 0
                 else:
                     a["off"] = -rng.choice([1, 2, 2, 3] if feat.get("deep_offsets") else [1, 1, 1, 2])
